@@ -182,9 +182,9 @@ def bounded(arg):
     def case(job):
         program, schedule = job
         try:
-            p = subprocess.run([sys.executable, here, program, schedule], capture_output=True, text=True, env=env, timeout=120)
+            p = subprocess.run([sys.executable, here, program, schedule], capture_output=True, text=True, env=env, timeout=25)
         except subprocess.TimeoutExpired:
-            return job, [('harness_timeout', 'case did not finish within 120 s')]
+            return job, [('harness_timeout', 'case did not finish within 25 s (limit 0.4 s)')]
         for line in p.stdout.splitlines():
             if line.startswith('RESULT'):
                 return job, [tuple(x) for x in json.loads(line[6:])]
